@@ -67,7 +67,7 @@ def init_(cls, attrs, **kw):
     return dict({"name": f"{cls}_init", "module": "fuzzylite.term", "object": f"{cls}.__init__", "file": FILE,
                  "params": [("name", "String")] + [(a, "X Rat") for a in attrs] + [("height", "X Rat")],
                  "locals": dict({"self_name": "String", "self_height": "X Rat"}, **{f"self_{a}": "X Rat" for a in attrs}),
-                 "stmt_externals": [SUPER_TERM]}, **kw)
+                 "stmt_externals": [SUPER_TERM], "emit_defaults": True}, **kw)
 
 
 def params_(cls, attrs):
